@@ -409,12 +409,15 @@ def main_check(engine, tier, verif_seed, jobs, n_runs=None, wall_cap=None):
     t_batch = None
     first_bad = {}  # clause -> (rec)
     dump = open(os.environ["VERIF_DUMP"], "w") if os.environ.get("VERIF_DUMP") else None
+    digests = open(os.environ["VERIF_DIGESTS"], "w") if os.environ.get("VERIF_DIGESTS") else None  # selftest/determinism
     for rec in run_batch(engine, n_runs, verif_seed, tier, jobs, wall_cap):
         res = rec["res"]
         if "harness_error" in res:
             agg["harness_errors"].append({"i": rec["i"], "seed": rec["seed"], "err": res["harness_error"][-1500:]})
             continue
         agg["evaluations"] += 1
+        if digests is not None:
+            digests.write(f"{rec['i']} {rec['seed']} {res.get('digest')} {len(res.get('violations') or ())}\n")
         if "child_signal" in res:
             agg["child_signals"] += 1
             res = engine.on_child_signal(res, rec)
@@ -508,9 +511,10 @@ def main_check(engine, tier, verif_seed, jobs, n_runs=None, wall_cap=None):
         },
     }
     ev["coverage"].update(engine.extra_coverage(agg))
-    os.makedirs(os.path.join(VERIF, "evidence"), exist_ok=True)
-    with open(os.path.join(VERIF, "evidence", f"{prop}.json"), "w", encoding="utf-8") as f:
-        json.dump(ev, f, indent=1, sort_keys=True, default=repr)
+    if not os.environ.get("VERIF_NO_EVIDENCE"):  # (self-test runs must not overwrite the evidence of the registered commands)
+        os.makedirs(os.path.join(VERIF, "evidence"), exist_ok=True)
+        with open(os.path.join(VERIF, "evidence", f"{prop}.json"), "w", encoding="utf-8") as f:
+            json.dump(ev, f, indent=1, sort_keys=True, default=repr)
     # report
     print(
         f"[{prop}] tier={tier} seed={verif_seed} runs={agg['evaluations']} distinct={len(agg['distinct'])} "
